@@ -93,6 +93,8 @@ def eq(I, a, b):
             return o.t == core.null()
         if isinstance(o, VAny):
             return core.any_is_none(o.t)
+        if isinstance(o, VModel) and hasattr(o, 'is_none'):
+            return o.is_none(I)          # contract-defined model of a value that may be None
         return z3.BoolVal(False)
     if isinstance(a, VAny) or isinstance(b, VAny):
         I.st.uses_any = True
